@@ -6,4 +6,5 @@ let table : (string * (Model.sx -> Model.sx)) list = [
   "simple", Model.run_simple;
   "helper", Model.run_helper;
   "h14", Model.run_h14;
+  "post", Model.run_post;
 ]
